@@ -2110,8 +2110,9 @@ fn cap_docs_case(slab: u64) -> DCase {
     }
 }
 fn cap_slabs(tier: Tier) -> u64 {
-    // reaching 5 000 documents / 10 000 tokens through the API costs 10-60 s each: thorough only
-    tier.pick(0, 4)
+    // reaching 5 000 documents / 10 000 tokens through the API costs 10-60 s each; the four scripted histories run
+    // on four worker threads in parallel, so the quick tier affords them too (the limits are part of the statement)
+    tier.pick(4, 4)
 }
 /// slab 0: documents at 5 000; slab 1: tokens at 10 000; thorough adds the second variant of each
 fn cap_run(_tier: Tier, slab: u64, ctx: &mut Ctx, out: &mut FixedOut) -> R {
